@@ -17,7 +17,7 @@ from harness import curves_common as CC
 from harness import dataset as D
 
 PROP = 'C09'
-MODELS = ['Model/RefIndex.vo']
+MODELS = ['Model/RefIndex.vo', 'Model/Views.vo', 'Model/ViewsCase.vo']
 PRE = 'From Spowtd Require Import Model.RefIndex.\nFrom Coq Require Import PrimFloat.\n'
 GRID_STEPS = [1.0, 0.5, 0.1, 0.2, 0.3, 2.5, 5.0]
 
@@ -36,6 +36,9 @@ def prepare(plan, name):
     return db
 
 
+VIEW_ITEMS = []      # (curves_common.dump_views(db), case) of the runs whose views are also checked against Model/Views.v
+
+
 class Curve(dict):
     """The master curve as the VIEW average_rising_depth / average_recession_time shows it (what the user, the
     plots and the PEST files see): level number -> value.  .table = the same from the tables rise / recession
@@ -43,6 +46,7 @@ class Curve(dict):
     disagree (curves_common.view_table_complaints)."""
     table = None
     complaints = ()
+    db = None
 
 
 def curve_levels(db, kind):
@@ -64,6 +68,7 @@ def run_ref(db, kind, ref, tag):
                   ('not-on-curve' if isinstance(exc, KeyError) else 'error')
         return kindexc, exc, None
     levels, step = curve_levels(work, kind)
+    levels.db = work
     return 'ok', None, levels
 
 
@@ -88,6 +93,7 @@ def refs_for(rng, levels, step):
 
 def check(plans, out, label):
     cases, meta = [], []
+    del VIEW_ITEMS[:]
     for n, plan in enumerate(plans):
         db = prepare(plan, 'prep')
         if db is None:
@@ -101,6 +107,10 @@ def check(plans, out, label):
             if st != 'ok':
                 out.count('no-curve(' + kind + ')')
                 continue
+            # no reference: the origin is the LAST row of the view (C09_view_origin_is_top_without_reference); the view
+            # against Model/Views.v inside Coq
+            VIEW_ITEMS.append((CC.dump_views(base.db), case0))
+            n_ref_views = 0
             if plan.get('top_cell'):
                 out.count('%s: highest level positive and off the grid lines, top grid level %s crossed by >= 2 intervals'
                           % (kind, 'IS' if plan.get('top_level') in base.table else 'is not'))
@@ -147,6 +157,9 @@ def check(plans, out, label):
                     if k not in lev or abs(lev[k]) > 1e-9 * scale:
                         out.violation('oracle', '%s -r %r (%d x %s): master curve at that level is %r, not 0; zero at levels %s'
                                       % (kind, ref, k, step, lev.get(k), zero), case=case)
+                    if on_grid and n_ref_views < 2:
+                        n_ref_views += 1          # two accepted references per curve: C09_view_zero_at_reference
+                        VIEW_ITEMS.append((CC.dump_views(lev.db), case))
                     if on_grid and len(base) >= 3:
                         out.nontriv((kind, form, step, k))
                     if len(zero) == 1:
@@ -162,6 +175,8 @@ def check(plans, out, label):
         out.violation('corr', 'model reference_index <> implementation for ref=%r step=%r' % (meta[i]['ref'], meta[i]['plan']['grid_step']),
                       case=meta[i])
     out.count('model-vs-code cases', len(cases))
+    CC.check_views_coq(PROP, label + '_views', VIEW_ITEMS, out,
+                       what=lambda c: ' (%s, reference %r)' % (c['kind'], c.get('ref')))
 
 
 def run(ctx, out):
